@@ -256,7 +256,7 @@ class GVec(_Generic):
             _same_space(self.space, k.space, "masked store into a per-row vector")
             if isinstance(v, GVec):
                 v = v.val
-            self.val = _ite_any(to_bool(k.val), v, self.val)
+            self.val = _guarded(_ite_any(to_bool(k.val), v, self.val), self.val)
             return
         if isinstance(k, (SV, int)):
             pv = RowPos(self.space).val.t
@@ -463,6 +463,9 @@ def keyed_loop(keys, interp, st, env):
             if not ok:
                 raise Unsupported(f"keyed loop at line {st.lineno}: table access not masked by equality with the loop key")
             key_cols.add(ast.unparse(sel.left))
+        elif isinstance(node, ast.Subscript) and isinstance(node.slice, ast.Compare) and len(node.slice.ops) == 1 and isinstance(node.slice.ops[0], ast.Eq) \
+                and isinstance(node.slice.comparators[0], ast.Name) and node.slice.comparators[0].id == var:
+            key_cols.add(ast.unparse(node.slice.left))  # v[labels == key] (per-row vectors)
         if isinstance(node, (ast.For, ast.While)):
             raise Unsupported("nested loop inside a keyed loop")
     cx = ctx()
